@@ -153,6 +153,22 @@ def check_find(case, ctx):
         shared_filters = {}       # one dict object per distinct filter spec
         for q in case["queries"]:
             start, end = q["start"], q["end"]
+            if q.get("reexclude") is not None:
+                # history: the exclusion lists of the one object are replaced
+                # (or withdrawn) between two searches
+                ctx.label("exclusion-replaced")
+                rx = q["reexclude"]
+                excl_paths = set()
+                for i in rx["files"]:
+                    if pop.files:
+                        excl_paths.add(pop.files[i % len(pop.files)].path)
+                excl_periods = [tuple(p) for p in rx["periods"]]
+                fileset.exclude_files(sorted(excl_paths))
+                if not excl_periods:
+                    ctx.label("excluded-periods-withdrawn")
+                fileset.exclude_times(
+                    excl_periods if excl_periods or rx["empty_as_list"]
+                    else None)
             filters_arg = None
             if q["filters"] is not None:
                 # the caller's filters dictionary is reused for every query
@@ -501,8 +517,18 @@ def find_cases(draw):
         bundle = draw(st.one_of(
             st.none(), st.none(), st.integers(1, 5),
             st.sampled_from(freqs) if freqs else st.integers(1, 5)))
+        rx = None
+        if queries and draw(st.integers(0, 6)) == 0:
+            periods = []
+            for _ in range(draw(st.integers(0, 2))):
+                a = draw(boundary_instant(bounds, unit))
+                periods.append([a, a + draw(st.sampled_from([
+                    dt.timedelta(0), unit, dt.timedelta(hours=1),
+                    dt.timedelta(days=1)]))])
+            rx = {"files": draw(st.lists(st.integers(0, 30), max_size=2)),
+                  "periods": periods, "empty_as_list": draw(st.booleans())}
         queries.append({
-            "start": start, "end": end,
+            "start": start, "end": end, "reexclude": rx,
             "sort": draw(st.booleans()),
             "only_path": draw(st.integers(0, 3)) == 0,
             "bundle": bundle,
